@@ -1,7 +1,11 @@
 import HqModel.Base.Proto
 import HqModel.Job.Model
+import HqModel.Job.Run
+import HqModel.Lemmas.JobJournal
 /-! Driver of the job-layer model (component `job`), see /verif/FRAMEWORK.md. -/
 open HqModel HqModel.Proto HqModel.Job
+open HqModel.Emit (emitFails advance)
+open HqModel.Journal (AState meaningStep)
 
 namespace JobDriver
 
@@ -212,11 +216,53 @@ where
         | .invalidDependencies t => s!"invaliddeps {t}"
       (s', evLines evs ++ [s!"out resp submit {r}", s!"out core {showTids (sortTids core)}"] ++ snapshot s' true)
 
+/-- the op line as model operations (`close a,b` = two ops), for the side conditions of the `c10_emitted_*` theorems -/
+def parseOps (toks : List String) : Option (List Op) :=
+  match toks with
+  | ["open", mf] => do let mf ← parseKV "mf" mf >>= parseOptNat; pure [.openJob mf]
+  | ["submit", job, mf, "array", a, b] => do
+      let job ← parseKV "job" job >>= parseOptNat; let mf ← parseKV "mf" mf >>= parseOptNat
+      let ids ← parseRanges a; let en ← parseOptNat b
+      pure [.submit job mf (.array ids en)]
+  | ["submit", job, mf, "graph", g] => do
+      let job ← parseKV "job" job >>= parseOptNat; let mf ← parseKV "mf" mf >>= parseOptNat
+      let g ← parseGraph g
+      pure [.submit job mf (.graph g)]
+  | ["close", ids] => (parseNatList ids).map (·.map .close)
+  | ["cancel", ids] => (parseNatList ids).map (·.map .cancel)
+  | ["forget", ids, sts] => do
+      let allowed ← if sts = "-" then some [] else (sts.splitOn ",").mapM parseStatus
+      let ids ← parseNatList ids
+      pure (ids.map fun j => .forget j allowed)
+  | ["cb.started", t, inst, ws, rv] => do
+      let t ← parseTid t; let i ← inst.toNat?; let ws ← parseNatList ws; let rv ← rv.toNat?
+      pure [.started t i ws rv]
+  | ["cb.finished", t] => do let t ← parseTid t; pure [.finished t]
+  | ["cb.error", t, cons] => do let t ← parseTid t; let c ← parseTids cons; pure [.failed t c]
+  | ["cb.wnew", w] => do let w ← w.toNat?; pure [.workerNew w]
+  | ["cb.wlost", w, running, reason] => do let w ← w.toNat?; let r ← parseTids running; pure [.workerLost w r reason]
+  | _ => none
+
+/-- evaluate `Emit.EmitOk` on the pre-state of every operation of the line (monitor lines for the failing conjuncts)
+and advance `A` = `meaning` of the journal written so far -/
+def emitShadow (s : State) (A : AState) : List Op → AState × List String
+  | [] => (A, [])
+  | op :: rest =>
+    let mons := (emitFails s A op).map fun sig =>
+      s!"mon FAIL c10.emit {sig} a side condition of the c10_emitted theorems is false on the pre-state of this operation of a real trace"
+    match Job.step s op with
+    | .error _ => (A, mons)
+    | .ok (s', evs) =>
+      let r := emitShadow s' (advance s A op evs) rest
+      (r.1, mons ++ r.2)
+
 /-- driver state: the model state + what live listeners need: every job reported completed so far, and per waiting
 client (`hq submit --wait`: a listener for the job's events registered when the submit is processed) the jobs reported
 completed since its registration -/
 structure DState where
   s : State := {}
+  /-- `meaning` of the journal the job layer has written so far (for `Emit.EmitOk`) -/
+  A : AState := meaningStep {} (.serverStart "u")
   completed : List Nat := []
   /-- (job the client waits for, jobs reported completed since the registration) -/
   waits : List (Nat × List Nat) := []
@@ -232,13 +278,18 @@ def stepD (d : DState) (toks : List String) : DState × List String :=
   | "submitw" :: rest =>
     -- a submit whose connection then streams the job's live events; the response line is not compared (it is
     -- delivered after the journal flush)
+    let (A', mons) := match parseOps ("submit" :: rest) with
+      | some ops => emitShadow d.s d.A ops
+      | none => (d.A, [])
     let (s', lines) := step d.s ("submit" :: rest)
+    let lines := lines ++ mons
+    let d := { d with A := A' }
     let done := completedIn lines
     let waits := d.waits.map fun w => (w.1, w.2 ++ done)
     let waits := match submittedJob lines with
       | some j => waits ++ [(j, done.filter (· == j))]
       | none => waits
-    ({ s := s', completed := d.completed ++ done, waits := waits },
+    ({ d with s := s', completed := d.completed ++ done, waits := waits },
      lines.filter fun l => !l.startsWith "out resp submit ")
   | ["waitreport", j] =>
     match j.toNat? with
@@ -247,9 +298,12 @@ def stepD (d : DState) (toks : List String) : DState × List String :=
       let got := d.waits.any fun w => w.1 == j && w.2.contains j
       (d, [s!"out wait {j} completed={if d.completed.contains j then 1 else 0} got={if got then 1 else 0}"])
   | _ =>
+    let (A', mons) := match parseOps toks with
+      | some ops => emitShadow d.s d.A ops
+      | none => (d.A, [])
     let (s', lines) := step d.s toks
     let done := completedIn lines
-    ({ s := s', completed := d.completed ++ done, waits := d.waits.map fun w => (w.1, w.2 ++ done) }, lines)
+    ({ s := s', A := A', completed := d.completed ++ done, waits := d.waits.map fun w => (w.1, w.2 ++ done) }, lines ++ mons)
 
 def driver : Driver DState := { reset := fun _ => {}, step := stepD }
 
